@@ -472,9 +472,15 @@ impl Response {
     }
 
     pub fn _parse_http_response_header_string(header_string: &str) -> Header {
-        let header_parts: Vec<&str> = header_string.split(Header::NAME_VALUE_SEPARATOR).collect();
-        let header_name = header_parts[0].to_string();
-        let raw_header_value = header_parts[1].to_string();
+        // the value may contain the separator itself, split at the first occurrence only
+        let boxed_split = header_string.split_once(Header::NAME_VALUE_SEPARATOR);
+        let mut header_name = header_string.to_string();
+        let mut raw_header_value = "".to_string();
+        if boxed_split.is_some() {
+            let (name, value) = boxed_split.unwrap();
+            header_name = name.to_string();
+            raw_header_value = value.to_string();
+        }
         let header_value = StringExt::truncate_new_line_carriage_return(&raw_header_value);
 
 
